@@ -275,8 +275,11 @@ def compInFrag : Comp → Bool
   | .cmp op p =>
     if p.isFull then true
     else match op, p.maj, p.min, p.pat with
-      | .bare, none, none, none => true            -- `*`
-      | .bare, some _, none, none => false         -- `1`  (code: exact 1.0.0)
+      | .bare, none, none, none => false           -- `x.x.x`, `*.*` … (the one-character spellings `*`, `x`, `X` are admitted as tokens in `inFrag`)
+      | .bare, some _, none, none => false         -- `1`  (code: exact 1.0.0 — pinned by the project's unit tests)
+      | .eq, _, _, _ => false                      -- `=1.2` (code: exact 1.2.0)
+      | .bare, _, _, _ => false
+      | _, some _, _, none => true                 -- an operator with `M` or `M.m`: `~1`, `^0.2`, `>1`, `<=1.2`, `>=1`
       | _, _, _, _ => false
   | .hyphen a b => a.isFull && b.isFull
 
@@ -313,7 +316,7 @@ def inFrag (spec : Text) : Bool :=
       (wsTokens (trimAfterOps part false)).all fun tok =>
         isCodeWildcard tok || tok == ['*'] || tok == ['x'] || tok == ['X'] ||
         match parseComp tok with
-        | some (.cmp op p) => p.isFull && compInFrag (.cmp op p)
+        | some (.cmp op p) => compInFrag (.cmp op p)
         | _ => false
 
 end Spec.NodeSemver
